@@ -25,7 +25,7 @@ type Case struct {
 }
 
 // switches that are turned off when the matching finding is recorded as known
-var knownSwitches = []string{"keyed-lit-compare-in-logic", "shift-count-deep-const", "fallthrough-default-not-last", "fallthrough-into-empty-clause", "label-in-case-clause", "shadow-loopvar", "for-empty-body", "invalid-utf8", "closure-loopvar", "goto", "labels", "fallthrough", "shadow", "defer", "recursion", "range-int", "switch-default-middle", "if-init", "switch-init", "shifts", "methods", "multi-value", "op-assign", "range-map", "printf"}
+var knownSwitches = []string{"delete-big-uint-const", "keyed-lit-compare-in-logic", "shift-count-deep-const", "fallthrough-default-not-last", "fallthrough-into-empty-clause", "label-in-case-clause", "shadow-loopvar", "for-empty-body", "invalid-utf8", "closure-loopvar", "goto", "labels", "fallthrough", "shadow", "defer", "recursion", "range-int", "switch-default-middle", "if-init", "switch-init", "shifts", "methods", "multi-value", "op-assign", "range-map", "printf"}
 
 func config(ctx *vf.Ctx) *progen.Config {
 	cfg := progen.DefaultConfig()
